@@ -73,7 +73,7 @@ func TestC25(t *testing.T) {
 		enginefactory.InitEngineCache(ctx, s.cfg, nil)
 	})
 	r := env.Rand("c25")
-	nodes := []string{"n1", "n2"}
+	nodes := []string{"n1", "n10", "n2"} // n1 is a prefix of n10: one node's status key must not cover the other's
 	// the workloads live on a third node that is never removed (a workload on a removed node is C22's subject)
 	wls := map[string]string{"w1aaaaaaaaaaaaaaaaaaaaaaaaaaaaaaaaaaaaaaaaaaaaaaaaaaaaaaaaaaaaaaaa": "nw", "w2bbbbbbbbbbbbbbbbbbbbbbbbbbbbbbbbbbbbbbbbbbbbbbbbbbbbbbbbbbbbbbbb": "nw", "w3cccccccccccccccccccccccccccccccccccccccccccccccccccccccccccccc": "nw"}
 	wids := []string{}
@@ -133,7 +133,7 @@ func TestC25(t *testing.T) {
 			}
 			exists[id] = true
 		}
-		isNode := func(e string) bool { return e == "n1" || e == "n2" }
+		isNode := func(e string) bool { return e == "n1" || e == "n10" || e == "n2" }
 		key := func(e string) string {
 			if isNode(e) {
 				return nodeKey(e)
